@@ -1,6 +1,6 @@
 SPECIFICATION TSpec
 CONSTANTS
-  Quirks = {"FileMapBase", "NonGopherPort70"}
+  Quirks = {}
 CONSTRAINT Record
 POSTCONDITION Post
 CHECK_DEADLOCK FALSE
